@@ -168,6 +168,8 @@ contract(M + "Scenario.run", props=P,
                  % (SEL0, STEPS, STEPS),
              "no-hooks-in-dry-run": "implies(runner.config.dry_run, G_nhooks == old(G_nhooks))",
              # ---- C03: statuses depend only on the latest run -----------------------------------------
+             "a-scenario-whose-own-hook-failed-reports-failure-to-its-container":
+                 "implies(self.hook_failed, result == True)",
              "own-hook-flag-reflects-this-run-only (not an earlier attempt)":
                  "implies(self.hook_failed, G_bad > old(G_bad))",
              # ---- C02 ---------------------------------------------------------------------------
